@@ -543,7 +543,7 @@ def c07(ctx, replay):
     rec, _ = ctx.tlc("WSPool", "WSPool.cfg", name="pool-ownership-model")
     ctx.count_model(rec)
     caught = {}
-    for cfg, dev in (("WSPool.dev.cfg", "ReadAgainUsesRef"), ("WSPool.dev2.cfg", "PutWithoutClear")):
+    for cfg, dev in (("WSPool.dev.cfg", "ReadAgainUsesRef"), ("WSPool.dev2.cfg", "PutWithoutClear"), ("WSPool.dev-alias.cfg", "ResultAliasesPool")):
         rec, out = ctx.tlc("WSPool", cfg, expect_ok=False, name="pool-ownership-model-with-deviation-" + dev)
         caught[dev] = "is violated" in out
         if not caught[dev]:
